@@ -329,6 +329,9 @@ Verdict IoEngine::exec_gkf(const Plan&, const std::string& B, const std::vector<
 Verdict IoEngine::execute(const Plan& plan, EventLog& log, Stats& st)
 {
   load_all();
+  // process-wide state a previous run of this worker may have left behind (an emulated gama-local --language cz)
+  GNU_gama::local::set_gama_language(GNU_gama::local::en);
+  GNU_gama::local::Observation::gons = true;
   std::string target = plan.get("target", "local");
   std::string B = from_hex(plan.get("doc", ""));
   if (plan.get("doc").empty() && !plan.get("corpus").empty()) {     // documents may be named instead of carried
